@@ -23,7 +23,8 @@ from raysect.primitive import Sphere, Box
 from cherab.tools.observers import (SightLineGroup, FibreOpticGroup, PixelGroup, TargettedPixelGroup,
                                     SpectroscopicSightLineGroup, SpectroscopicFibreOpticGroup,
                                     SpectroscopicSightLine, SpectroscopicFibreOptic)
-from cherab.tools.observers.bolometry import BolometerCamera, BolometerFoil, BolometerSlit
+from cherab.tools.observers.bolometry import BolometerCamera, BolometerFoil, BolometerSlit, BolometerIRVB
+from raysect.optical.observer import PowerPipeline2D
 
 from ..core import Violation, HarnessError
 from ..machine import Machine
@@ -44,6 +45,23 @@ class CountPipe(PowerPipeline0D):
     def finalise(self):
         self.finals += 1
         return PowerPipeline0D.finalise(self)
+
+
+class CountPipe2D(PowerPipeline2D):
+    """The same for a 2-D member (BolometerIRVB)."""
+
+    def __init__(self):
+        super().__init__(accumulate=False, name="count2d", display_progress=False)
+        self.inits = 0
+        self.finals = 0
+
+    def initialise(self, pixels, pixel_samples, min_wavelength, max_wavelength, spectral_bins, spectral_slices, quiet):
+        self.inits += 1
+        return PowerPipeline2D.initialise(self, pixels, pixel_samples, min_wavelength, max_wavelength, spectral_bins, spectral_slices, quiet)
+
+    def finalise(self):
+        self.finals += 1
+        return PowerPipeline2D.finalise(self)
 
 
 GROUPS = {
@@ -113,8 +131,9 @@ def gen_scalar(rng, attr):
         v = [round(rng.uniform(-1, 1), 3) for _ in range(3)]
         if sum(abs(c) for c in v) < 0.2:
             v = [0.0, 0.0, 1.0]
-        if rng.random() < 0.1:
-            v = [0.0, 0.0, 1.0]
+        if rng.random() < 0.2:
+            # along the z axis (either way, any length): the deprecated observers choose their 'up' vector by looking at it
+            v = rng.choice([[0.0, 0.0, 1.0], [0.0, 0.0, -1.0], [0.0, 0.0, 2.0], [0.0, 0.0, -0.5], [0.0, 1.0, 0.0]])
         return {"vector": v}
     if k[0] == "int":
         return rng.randint(k[1], k[2])
@@ -136,7 +155,6 @@ class GroupMachine(Machine):
                        "World with one small uniform emitter"]
     assumptions = [
         "elements of right-length sequences are individually valid for the member observers (element validation is raysect's)",
-        "BolometerCamera documents index and name look-up only; slices are exercised on Observer0DGroup subclasses",
         "observers removed from a group by re-assigning `observers` may remain scene-graph children: not judged (property speaks of members)",
     ]
     rule = ("cases = seeded (group class, pool of observers, op list); abstraction = sequence of (op kind, attribute, value kind, "
@@ -150,6 +168,8 @@ class GroupMachine(Machine):
         cfg = {"group": gname, "pool": 6, "initial": rng.randint(0, 4), "via_ctor": rng.random() < 0.5}
         ops = []
         if gname == "BolometerCamera":
+            # the camera accepts BolometerFoil and BolometerIRVB members
+            cfg["irvb"] = [i for i in range(6) if rng.random() < 0.2]
             for _ in range(rng.randint(3, 25)):
                 u = rng.random()
                 if u < 0.3:
@@ -157,8 +177,10 @@ class GroupMachine(Machine):
                 elif u < 0.45:
                     ops.append({"op": "setobs", "idx": [rng.randrange(6) for _ in range(rng.randint(0, 5))],
                                 "as": rng.choice(["list", "list", "tuple"])})
-                elif u < 0.6:
-                    ops.append({"op": "index", "i": rng.randint(-7, 7)})
+                elif u < 0.56:
+                    ops.append({"op": "index", "i": rng.randint(-7, 7), "np": rng.choice([None, None, "int64", "uint8", "intp"])})
+                elif u < 0.62:
+                    ops.append({"op": "slice", "a": rng.randint(-3, 4), "b": rng.randint(-3, 6)})
                 elif u < 0.75:
                     ops.append({"op": "byname", "name": "obs%d" % rng.randrange(7)})
                 elif u < 0.85:
@@ -242,6 +264,9 @@ class GroupMachine(Machine):
             slit = c.slits[i % 2]
             o = BolometerFoil(name, Point3D(0.05 * i, 0, -1), Vector3D(1, 0, 0), 0.01, Vector3D(0, 1, 0), 0.01, slit)
             o.pipelines = [CountPipe()]
+        elif kind == "irvb":
+            o = BolometerIRVB(name, 0.01, (2, 2), c.slits[i % 2], translate(0.05 * i, 0, -1))
+            o.pipelines = [CountPipe2D()]
         else:
             raise HarnessError(kind)
         o.render_engine = eng
@@ -267,7 +292,8 @@ class GroupMachine(Machine):
         if c.is_cam:
             c.slits = [BolometerSlit("slit%d" % k, Point3D(0.0, 0, -0.9 + 0.01 * k), Vector3D(1, 0, 0), 0.005, Vector3D(0, 1, 0), 0.005,
                                      parent=c.world) for k in range(2)]
-        c.pool = [self._make_observer(c, c.okind, i) for i in range(cfg["pool"])]
+        c.irvb = set(cfg.get("irvb", []))
+        c.pool = [self._make_observer(c, "irvb" if i in c.irvb else c.okind, i) for i in range(cfg["pool"])]
         c.wrong = self._make_observer(c, c.wrongkind, 99)
         c.attrs = [] if c.is_cam else discover(c.cls)
         init = list(range(cfg["initial"]))
@@ -706,12 +732,10 @@ class GroupMachine(Machine):
         try:
             if k == "index":
                 ii = op["i"]
-                if op.get("np") and not c.is_cam and not (op["np"] == "uint8" and ii < 0):
+                if op.get("np") and not (op["np"] == "uint8" and ii < 0):
                     ii = getattr(np, op["np"])(ii)        # an integer that is not a Python int (np.argmax result, ...)
                 got = g[ii]
             elif k == "slice":
-                if c.is_cam:
-                    return "noop"
                 got = g[op["a"]:op["b"]]
             else:
                 got = g[op["name"]]
@@ -777,6 +801,9 @@ class GroupMachine(Machine):
         c.mutations += 1
         return "ok"
 
+    def _new_pipe(self, c, i):
+        return CountPipe2D() if i in c.irvb else CountPipe()
+
     def _do_observe(self, c, op, env):
         g = c.group
         if c.stolen & set(c.members):
@@ -784,7 +811,7 @@ class GroupMachine(Machine):
             if not any(c.pool[i].parent is None for i in c.stolen & set(c.members)):
                 return "noop"
             for i in c.members:
-                c.pool[i].pipelines = [CountPipe()]
+                c.pool[i].pipelines = [self._new_pipe(c, i)]
                 c.pool[i].render_engine = c.engines[0]
                 c.model[i] = self._snapshot_member(c, c.pool[i])
             try:
@@ -796,7 +823,7 @@ class GroupMachine(Machine):
             raise Violation("observe", c.gname, "group.observe() succeeded although a member is detached from the world")
         pipes = {}
         for i in c.members:
-            p = CountPipe()
+            p = self._new_pipe(c, i)
             c.pool[i].pipelines = [p]
             c.pool[i].render_engine = c.engines[0]
             pipes[i] = p
@@ -804,14 +831,16 @@ class GroupMachine(Machine):
         others = {}
         for i, o in enumerate(c.pool):
             if i not in c.members:
-                p = CountPipe()
+                p = self._new_pipe(c, i)
                 o.pipelines = [p]
                 others[i] = p
                 c.model[i] = self._snapshot_member(c, o)
         try:
-            g.observe()
+            res = g.observe()
         except Exception as e:
             raise Violation("observe", c.gname, "group.observe() raised %s: %s" % (type(e).__name__, e))
+        if c.is_cam and (res is None or len(res) != len(c.members)):
+            raise Violation("observe", c.gname, "camera.observe() returned %r for %d members" % (res, len(c.members)))
         for i, p in pipes.items():
             if p.inits != 1 or p.finals != 1:
                 raise Violation("observe", c.gname, "member %d was observed %d times (finalised %d) by one group.observe()" % (i, p.inits, p.finals))
